@@ -100,6 +100,10 @@ def target_variant(impl: str, test: str, admittance: bool, cap: bool, ind: bool)
         w = 2 * ns["pi"] * f
         circuit = ns["_generate_circuit"](taus, cap, ind if impl == "lstsq" else True, admittance)
         sess.check("post", [], z3.BoolVal(circuit.con.kind == ("Parallel" if admittance else "Series")), 0, label="_generate_circuit:series-for-Z/parallel-for-Y")
+        inf_ = float("inf")
+        unbounded = all(getattr(e, "lower", {}).get(p_) == -inf_ and getattr(e, "upper", {}).get(p_) == inf_
+                        for e in circuit.get_elements() for p_ in ("R", "C", "L") if type(e).__name__ in ("Resistor", "Capacitor", "Inductor") and p_ in e.values)
+        sess.check("post", [], z3.BoolVal(unbounded), 0, label="_generate_circuit: the series/parallel R, C and L are unbounded (-inf, inf): every sign of the model's parameters is representable, also for the non-linear fit")
         if impl == "lstsq":
             # the 'real' test builds its stage-1 matrix without the optional columns; O1 is stated for the full matrix of the
             # 'complex'/'imaginary' layouts and for the R/RC columns of 'real'
